@@ -18,8 +18,8 @@ from ..models import energy as E
 
 ID = "C18"
 LEVEL = "exploration"
-TIERS = {"quick": {"shards": 16, "budget_s": 25, "random": 1200},
-         "thorough": {"shards": 16, "budget_s": 420, "random": 40000}}
+TIERS = {"quick": {"shards": 16, "budget_s": 120, "random": 1200},
+         "thorough": {"shards": 16, "budget_s": 900, "random": 40000}}
 RULE = ("Random audio (widths 1/2/4, 1-4 channels, rates 8..48000, 0..60 samples) written with to_file()/region.save() as "
         "wav or raw (by extension, no extension, explicit format incl. 'wave', str and Path names) and read back with "
         "load()/from_file() eagerly and lazily.  The two halves are also observed separately: files written by auditok are read "
